@@ -154,7 +154,8 @@ def relayout(rng, tokens, mode):
                     # a comment, glued to the token before it as often as not (a quoted string
                     # swallows nothing: `#` after the closing quote starts the comment)
                     sep = rng.choice([' # ', '#', ' #', '# ']) + \
-                        rng.choice(['comment', 'set all', '"x', '{ [ (', 'end end', 'H:S']) + '\n'
+                        rng.choice(['comment', 'set all', '"x', '{ [ (', 'end end', 'H:S', 'old\x0chue 300',
+                                    'a\x0bset all', 'x\u2028off all', 'y\x85on all', 'z\x1coff all']) + '\n'
                 else:
                     sep = '\r\n'
             else:
@@ -495,7 +496,11 @@ def main():
         else:
             chk.nontrivial_case('ord:' + script)
     # ---- 3. a quoted string may contain anything but a double quote or a line break
-    chars = [chr(c) for c in range(32, 127) if chr(c) != '"'] + ['\t', 'é', 'Ω', '日', '\x7f', '\xa0']
+    # every character other than the double quote and the line feed, control characters and the
+    # other things some library calls a "line boundary" included (VT, FF, FS, GS, RS, NEL, LS, PS,
+    # a bare CR): the language's only line break is the line feed
+    chars = [chr(c) for c in range(32, 127) if chr(c) != '"'] + ['\t', 'é', 'Ω', '日', '\x7f', '\xa0'] + \
+        ['\x0b', '\x0c', '\x1c', '\x1d', '\x1e', '\x1f', '\x85', '\u2028', '\u2029', '\r', '\x01', '\x00']
     strings = [''.join(rng.choice(chars) for _ in range(rng.randint(1, 10)))
                for _ in range(1500 if chk.thorough else 300)]
     strings += [c for c in chars] + ['#', ' # x', '{', '}', '[', ']', '(', '-', '+', '%', '12:30',
